@@ -9,6 +9,7 @@ import Driver.C15
 import Driver.C13
 import Driver.C16
 import Driver.C06
+import Driver.Batch
 open Driver
 
 def machines : List (String × Machine × Machine) :=
@@ -22,7 +23,9 @@ def machines : List (String × Machine × Machine) :=
    ("C15", C15.machine, C15.judge),
    ("C13", C13.machine, C13.judge),
    ("C16", C16.machine, C16.judge),
-   ("C06", C06.machine, C06.judge)]
+   ("C06", C06.machine, C06.judge),
+   ("C04", Batch.machine, Batch.judge04),
+   ("C05", Batch.machine, Batch.judge05)]
 
 def main (args : List String) : IO UInt32 := do
   match args with
